@@ -40,17 +40,17 @@ CLAIMED.update({
  "C07": ("stack-sim", "deterministic simulation: seeded configurations (layer trees with global and per-layer filters assembled at run time) x seeded emission histories through the real macros (interest caches, MAX_LEVEL, per-thread FILTERING state in play), one or two stacks on one or two threads; stack delivery reference model (A5) as oracle",
          "Seeded exploration of stacks built from plain layers, global filter layers and per-layer-filtered subtrees (nested, Vec/Option/Box/and_then) with level/Targets/EnvFilter/static-closure/context-closure/and-or-not filters, and histories of spans (create/enter/exit/record/drop), events, enabled! probes and emissions aborted by a panicking field expression; each leaf must receive exactly what its own path filters and the global filters accept, lifecycle notifications go to exactly the recipients of the span, and lookup_current/event_scope inside callbacks show exactly the spans the leaf received. Known-finding triggers (F3, F13, F14) run in separate finding-probe configurations. Sampling, not proof.",
          "Trusts: the filter evaluator and delivery model in sim/tsim/src/stack.rs and stack_sim.rs (restricted grammar: target tables by longest string prefix, static closures by site mask, context closures on the visible current span); histories are total orders.", "DESIGN.md 5 C07"),
- "C09": ("wrap-sim", "deterministic simulation: seeded configurations (1-5 recording layers, nested pass-through wrappers, collector wrappers, two base collectors, optional veto) x seeded span/event histories; absolute exactly-once/ordering oracle per operation window",
+ "C09": ("wrap-sim", "deterministic simulation: seeded configurations (1-5 recording layers, nested pass-through wrappers, collector wrappers, two base collectors, optional veto) x seeded span/event histories, optionally raced (seeded schedules) by a thread holding a reload wrapper's write lock inside Handle::modify; absolute exactly-once/ordering oracle per operation window",
          "Seeded exploration of wrapper nestings {Box, Some, one-element Vec, reload, and_then with Identity/None/empty-Vec neighbours}, transparent extra groups (None, empty Vec, Identity), the collector wrapped in Box/Arc/Box<Box>, over the Registry or an id-changing collector; per operation every layer must log each lifecycle notification (new span, record, follows-from, event, enter, exit, close, id change) exactly once, inner layers first, with identical arguments; dispatcher registration exactly once per layer; query callbacks (register_callsite, enabled, event_enabled) the same number of times for every layer unless a layer vetoes, in which case nobody is notified. Sampling, not proof.",
-         "Trusts: the per-operation expectation table in sim/tsim/src/wrap_sim.rs; query-callback ORDER is not demanded (outer-first by documented design); no schedule dimension (history only).", "DESIGN.md 5 C09"),
+         "Trusts: the per-operation expectation table in sim/tsim/src/wrap_sim.rs; query-callback ORDER is not demanded (outer-first by documented design); the schedule dimension covers only the reload wrapper's lock.", "DESIGN.md 5 C09"),
 })
 
 CLAIMED.update({
- "C11": ("directive-sim", "deterministic simulation: seeded directive sets x seeded enter/exit/record histories on 1-2 threads, run under four replica collectors in one process (Targets, EnvFilter, EnvFilter re-parsed from its Display, EnvFilter as per-layer filter); differential oracles plus a reference model for the documented directive subset",
+ "C11": ("directive-sim", "deterministic simulation: seeded directive sets x seeded enter/exit/record histories on 1-2 threads (total orders; a quarter of the span-scoped runs as seeded schedules of two threads racing on one EnvFilter), run under four replica collectors in one process (Targets, EnvFilter, EnvFilter re-parsed from its Display, EnvFilter as per-layer filter); differential oracles plus a reference model for the documented directive subset",
          "Seeded exploration of directive strings from the documented grammar (shared prefixes, duplicates/conflicts in any order, bare level/target, names in any case or digits, span names, int/bool field value matchers) with well-nested enter/exit histories over named spans with typed fields (values recorded at creation or later, spans shared between threads); replicas must deliver identically (Display round trip, global vs per-layer, Targets on static strings), would_enable must equal delivery, and deliveries must equal the model (longest prefix wins, last duplicate wins, level raised exactly while a matching span is entered on the thread and for the span itself). Sampling, not proof.",
          "Trusts: the directive model in sim/tsim/src/directive_sim.rs for the generated subset; forms outside it are checked only differentially; spans cared about by a directive's callsite but not matching its values are not judged.", "DESIGN.md 5 C11"),
- "C12": ("reload-sim", "deterministic simulation: seeded histories and seeded schedules (cooperative RwLock shim inside reload, callsite-registry lock hook H1, every interest/MAX_LEVEL atomic a preemption point) of reload/modify vs emissions on 2-3 threads; interval-rule oracle against the filter evaluator",
-         "Seeded exploration of <=6 reloads between None/level/Targets/EnvFilter/closure values of a reloadable global layer (inner or outer) or per-layer filter, interleaved with <=30 emissions from a callsite pool on the reloading and other threads; an emission that starts after reload k returned (and ends before k+1 starts) is judged exactly by value k, an overlapping one by one of the overlapping values; MAX_LEVEL after return is at least the new value's need (exact for level values); a handle whose collector is gone returns a 'dropped' error. Sampling, not proof.",
+ "C12": ("reload-sim", "deterministic simulation: seeded histories and seeded schedules (cooperative RwLock shim inside reload, callsite-registry lock hook H1, every interest/MAX_LEVEL atomic a preemption point) of reload/modify (from one thread or overlapping from several) vs emissions on 2-3 threads; interval-rule (register linearizability) oracle against the filter evaluator",
+         "Seeded exploration of <=6 reloads between None/level/Targets/EnvFilter/closure values of a reloadable global layer (inner or outer) or per-layer filter, interleaved with <=30 emissions from a callsite pool on the reloading and other threads; an emission is judged by a value whose reload began before the emission ended and was not certainly superseded before the emission began (exactly value k when it lies between reload k's return and reload k+1's start); MAX_LEVEL after return is at least the new value's need (exact for level values); a handle whose collector is gone returns a 'dropped' error. Sampling, not proof.",
          "Trusts: the filter evaluator; lock poisoning cannot occur under the parking_lot seam and is not explored; sequential consistency.", "DESIGN.md 5 C12"),
 })
 
